@@ -5,6 +5,7 @@ pub mod corpus;
 pub mod external;
 pub mod fuzzbody;
 pub mod gen;
+pub mod helpers;
 pub mod imp;
 pub mod model;
 pub mod props;
